@@ -73,7 +73,9 @@ void *v_alloc (size_t n)
   v_alloc_calls++;
   if (!raw) abort ();
   if (n == 0) err ("allocate called with size 0");
-  memset (raw, CANARY, GUARD); u = raw + GUARD; memset (u, v_poison, n); memset (u + n, CANARY, GUARD);
+  memset (raw, CANARY, GUARD); u = raw + GUARD;
+  if (n <= (1u << 20)) memset (u, v_poison, n); else { memset (u, v_poison, 4096); memset (u + n - 4096, v_poison, 4096); }
+  memset (u + n, CANARY, GUARD);
   put (u, n);
   return u;
 }
@@ -84,7 +86,7 @@ void v_free (void *p, size_t n)
   if (!b) { err ("free of foreign pointer %p (size %zu)", p, n); return; }
   if (b->n != n) err ("free size %zu, block has %zu", n, b->n);
   if (!guards_ok (p, b->n)) err ("guard bytes around block of %zu bytes damaged (seen at free)", b->n);
-  memset (p, 0xDD, b->n);
+  if (b->n <= (1u << 20)) memset (p, 0xDD, b->n);
   del (b);
   free ((unsigned char *) p - GUARD);
 }
@@ -99,7 +101,7 @@ void *v_realloc (void *p, size_t old, size_t new)
   keep = b->n < new ? b->n : new;
   u = v_alloc (new); v_alloc_calls--;
   memcpy (u, p, keep);
-  memset (p, 0xDD, b->n);
+  if (b->n <= (1u << 20)) memset (p, 0xDD, b->n);
   del (find (p));
   free ((unsigned char *) p - GUARD);
   return u;
